@@ -347,6 +347,13 @@ class _stream_init:
 
     def on_raise(e): return {"the-half-built-stream-is-discarded": True}
 
+    def aliases(e): return {"self.encoder": e.encoder, "self.options": e.options}
+
+    def lists(e):
+        supplied = Not(is_none(e.options.flow))
+        return [dict(label="flow-supplied", when=supplied, set={}, alias={"self.flow": opt_val(e.options.flow)}),
+                dict(label="flow-inferred", when=Not(supplied), set={})]
+
     def _final_logical(e):
         o = e.options
         supplied = Not(is_none(o.flow))
@@ -363,7 +370,6 @@ class _stream_init:
         supplied = Not(is_none(o.flow))
         flow = S.flow.val if isinstance(S.flow, Opt) else S.flow
         out = {
-            "same-encoder-and-options": And(S.encoder == e.encoder, S.options == e.options),
             "not-yet-enrolled": Not(S.enrolled),
             "no-remembered-terms": And(*[is_none(x) for x in S.repeated_terms.items]) if len(S.repeated_terms.items) == 4 else False,
             "repeated-terms-list-is-per-stream": _is_new(e, S.repeated_terms),
@@ -378,7 +384,7 @@ class _stream_init:
             out["inferred-flow-class-as-specified"] = exp.get(flow.cls.name, False)
             out["inferred-flow-starts-empty"] = flow_len(flow) == 0
         else:
-            out["a-flow-that-is-not-new-is-the-supplied-one"] = And(supplied, flow == opt_val(o.flow))
+            out["a-flow-that-is-not-new-is-the-supplied-one"] = supplied
         return out
 
 
